@@ -34,6 +34,6 @@ with cf.ThreadPoolExecutor(max_workers=10) as ex:
                           "demo_unchanged_exit": c.get("demo_unchanged_exit"), "demo_changed_exit": c.get("demo_changed_exit"), "tests": c.get("tests_tail"), "ok": c.get("confirmed")}
         json.dump(m, open(os.path.join(dst, "meta.json"), "w"), indent=1)
         print(pid, c.get("confirmed"), c.get("apply"), c.get("demo_unchanged_exit"), c.get("demo_changed_exit"), c.get("tests_tail"), (c.get("apply_err") or c.get("error") or "")[:120])
-for pid in ids:
+for pid, _dst in todo:  # only those whose candidate was collected: an agent may still be writing in the others
     subprocess.run(["git", "-C", "/repo", "worktree", "remove", "--force", f"/tmp/wt/{pid}{suf}"], capture_output=True)
 subprocess.run(["git", "-C", "/repo", "worktree", "prune"])
